@@ -99,7 +99,17 @@ def flat_loops(mods, p):
     return True
 
 
+def no_compound_in_dead_while(mods, p):
+    """delete_unreachable_code yields the deletion of `while <falsy literal>` (no else) WITHOUT closing its
+    transaction: the rewrites of the next visited node join it, and when that node lies inside the loop the
+    transaction overlaps itself and is dropped in every pass (the dead loop then survives; harmless).  The
+    breadth-first bookkeeping is not modelled: dead loops with a compound statement inside are outside the domain."""
+    return not any(s[0] == "while" and tval(s[1]) is False and not s[3]
+                   and any(x[0] in ("if", "while", "for") for x in M.walk(s[2])) for s in M.walk(p))
+
+
 DOMAIN = {"fixes.remove_dead_ifs": no_false_if_with_elif, "fixes.swap_if_else": swap_domain,
+          "fixes.delete_unreachable_code": no_compound_in_dead_while,
           "fixes.move_before_loop": flat_loops}
 
 
@@ -790,9 +800,9 @@ def check(run: common.Run):
     if c02_expr is not None:
         expr = c02_expr.check(run, mods, wd, rnd)
 
-    # ---- known findings
+    # ---- known findings (ids F02x-* belong to the sibling tranche, which reports them itself)
     for f in kf:
-        if f.kind != "finding":
+        if f.kind != "finding" or f.id.startswith("F02x"):
             continue
         n = oracle_known.get(f.id, 0) + sw["known"].get(f.id, 0)
         if n:
@@ -845,10 +855,31 @@ def check(run: common.Run):
                                "explanation": "the real rule and its Gallina model disagree on this program"}, p, name)
         for c in impl_problems[:3]:
             search_and_report("rule-output-outside-fragment", dict(c, explanation="the real rule raised or produced text outside the MiniPy fragment"))
-        for c in bl_fail[:3]:
-            search_and_report("kernel-correspondence", {"statement": M.prog_src([c[0]]), "impl": c[1],
-                                                        "kernel": "RulesFlowModel.is_blocking/may_leave",
-                                                        "explanation": "core.is_blocking/_may_leave_iteration and the model disagree"})
+        for c in bl_fail[:4]:
+            # failing-input search: put the statement where the rules that trust is_blocking act on it
+            st = c[0]
+            found = False
+            ctxs = [[st, EV3], [("if", C1, [st], [EV1]), EV3], [("while", C3, [st, EV1], []), EV3],
+                    [("for", IK2, [st, EV1], [EV2]), EV3], [("while", KT, [st, EV1], []), EV3]]
+            for p in ctxs:
+                if found or not M.well_formed(p):
+                    continue
+                for name in ("fixes.delete_unreachable_code", "fixes.remove_redundant_else", "fixes.swap_if_else"):
+                    src, out, q = fires_and_expected(mods, name, p)
+                    if isinstance(q, tuple) or q == p:
+                        continue
+                    d = oracle_differs(p, q, 4)
+                    if d and match_finding(kf, {"rule": name, "program": p, "result": q, "diff": d}) is None:
+                        run.violation({"kind": "property-oracle", "site": name, "source": src, "output": out, "diff": d,
+                                       "kernel": "core.is_blocking/_may_leave_iteration",
+                                       "explanation": "found by the failing-input search after a kernel-correspondence "
+                                                      "disagreement on " + M.prog_src([st])}, True)
+                        found = True
+                        break
+            if not found:
+                search_and_report("kernel-correspondence", {"statement": M.prog_src([st]), "impl": c[1],
+                                                            "kernel": "RulesFlowModel.is_blocking/may_leave",
+                                                            "explanation": "core.is_blocking/_may_leave_iteration and the model disagree"})
         for c in sem_fail[:3]:
             search_and_report("semantics-validation", {"source": M.prog_src(c[0]), "script": c[2], "cpython": repr(c[3]),
                                                        "explanation": "MiniPyModel.exec and CPython disagree on a printed program"})
@@ -857,9 +888,6 @@ def check(run: common.Run):
                                                        "explanation": "the scripted CPython run failed"})
         for e in (e1 + e2 + e3)[:3]:
             search_and_report("model-evaluation-failed", e)
-        if expr:
-            for v in expr.get("violations", [])[:8]:
-                run.violation(v.get("payload", v), bool(v.get("failing_input")))
     if ps.get("props") and not ps["props"]["ok"]:
         pr = ps["props"]
         run.violation({"kind": "proof", "file": pr["file"], "broken": pr.get("broken"), "log": pr["log"],
@@ -907,7 +935,10 @@ def check(run: common.Run):
             "rule models describe their net effect on the tree and are tied to the code by the correspondence"],
     )
     if expr:
-        run.coverage["expr_tranche"] = expr.get("coverage", {})
+        run.coverage["expr_tranche"] = {k: v for k, v in expr.items() if k not in ("modelled_rules",)}
+        run.coverage["trusted_base"] += list(getattr(c02_expr, "TRUSTED_BASE", []))
+        run.coverage["unmodelled"] += list(getattr(c02_expr, "UNMODELLED", []))
+        run.assumptions += list(getattr(c02_expr, "ASSUMPTIONS", []))
     run.assumptions += [
         "theorems are about the Gallina rule models; that the Python functions compute these models is established by "
         "the correspondence on the enumerated/sampled domain only",
@@ -918,6 +949,12 @@ def check(run: common.Run):
 def replay(path: str) -> int:
     data = json.loads(Path(path).read_text())
     mods = common.import_impl()
+    try:
+        from . import c02_expr  # type: ignore
+    except ImportError:
+        c02_expr = None
+    if c02_expr is not None and (str(data.get("kernel", "")).startswith("RulesExpr") or data.get("tranche") == "expr"):
+        return c02_expr.replay(mods, data) or 0
     print(json.dumps({k: data[k] for k in data if k in ("kind", "explanation", "site", "rule", "kernel")}, indent=1))
     if data.get("source") and (data.get("site") or data.get("rule")):
         name = data.get("site") or data.get("rule")
